@@ -323,7 +323,10 @@ func (obj JsonWebEncryption) Decrypt(decryptionKey interface{}) ([]byte, error) 
 
 	authData := obj.computeAuthData()
 
+	// The plaintext is empty(nil) when the message was encrypted from empty
+	// plaintext, so we must use another flag to indicate the success.
 	var plaintext []byte
+	var decrypted bool
 	for _, recipient := range obj.recipients {
 		recipientHeaders := obj.mergedHeaders(&recipient)
 
@@ -332,12 +335,13 @@ func (obj JsonWebEncryption) Decrypt(decryptionKey interface{}) ([]byte, error) 
 			// Found a valid CEK -- let's try to decrypt.
 			plaintext, err = cipher.decrypt(cek, authData, parts)
 			if err == nil {
+				decrypted = true
 				break
 			}
 		}
 	}
 
-	if plaintext == nil {
+	if !decrypted {
 		return nil, ErrCryptoFailure
 	}
 
